@@ -61,6 +61,18 @@ class Ctx:
         self.obs.append(o)
         return o
 
+    def withdraw_failures_since(self, mark: int, why: str):
+        """The structural rules recorded since *mark* did not recognise the
+        shape of what they looked at, and a stronger judge (an interpretive
+        rule over the same construct) has decided the matter in the meantime:
+        their negative verdicts are withdrawn (kept in the evidence as
+        discharged with the reason)."""
+        for o in self.obs[mark:]:
+            if not o.ok:
+                o.ok = True
+                o.what = f"[shape not recognised; {why}] " + o.what
+                o.nontrivial = False
+
     def floor(self, name: str, count: int, minimum: int):
         """Anti-vacuity: an instance count below what was confirmed by hand
         is an analysis error, not a pass."""
